@@ -46,7 +46,7 @@ impl Prop for C09 {
         "C09"
     }
     fn rule(&self) -> String {
-        "12 magnitudes (absolute zero, -40, freezing/boiling points, fractions) x all 36 ordered pairs of the six scale spellings (K kelvin °C celsius °F fahrenheit) as direct conversions; all chains x S1 to S2 to S3 [to S4] over the three scales (thorough: all six spellings); exact inverse; several casts of one scale pair in one query (a difference of two casts, two and three results); prefixed scales (m k n G milli kilo on K/°C/°F and their long names: every ordered pair of 21 words x 5 magnitudes, and chains through a prefixed scale; judged only when the tool reads the word as that prefixed scale); scales not alone with power one: S^n (n in -3..3 except 1), S*u, S/u, u/S, u*S*v with u,v in {m,s,J,kg} converted to the same shape over another scale: result must be an error or the interval conversion (°C->K x1, °F->K x5/9 per power) and never contain the zero-point offset. Non-trivial = source and target scale differ; distinct = distinct query strings".into()
+        "12 magnitudes (absolute zero, -40, freezing/boiling points, fractions) x all 36 ordered pairs of the six scale spellings (K kelvin °C celsius °F fahrenheit) as direct conversions; all chains x S1 to S2 to S3 [to S4] over the three scales (thorough: all six spellings); exact inverse; sums and differences of two temperatures over all 36 spelling pairs (the right operand converted to the left scale by the affine formulas); several casts of one scale pair in one query (a difference of two casts, two and three results); prefixed scales (m k n G milli kilo on K/°C/°F and their long names: every ordered pair of 21 words x 5 magnitudes, and chains through a prefixed scale; judged only when the tool reads the word as that prefixed scale); scales not alone with power one: S^n (n in -3..3 except 1), S*u, S/u, u/S, u*S*v with u,v in {m,s,J,kg} converted to the same shape over another scale: result must be an error or the interval conversion (°C->K x1, °F->K x5/9 per power) and never contain the zero-point offset. Non-trivial = source and target scale differ; distinct = distinct query strings".into()
     }
     fn assumptions(&self) -> Vec<String> {
         vec!["K = C + 273.15 and C = (F - 32) * 5/9 are written out in the harness, independent of src/units/temperature.rs".into()]
@@ -130,6 +130,17 @@ impl Prop for C09 {
                 }
             }
         }
+        // + and - between temperatures: the tool converts the right operand to the left operand's
+        // scale (documented add/sub semantics) - that conversion must be the affine one
+        for (a, ka) in SCALES {
+            for (b, kb) in SCALES {
+                for (x, y) in [("50", "10"), ("300", "10"), ("-40", "-40"), ("0.5", "98.6"), ("1e30", "1")] {
+                    for op in ["+", "-"] {
+                        sink(Case::with("sum", format!("{x} {a} {op} {y} {b}"), serde_json::json!({"x": x, "y": y, "a": ka.to_string(), "b": kb.to_string(), "op": op})));
+                    }
+                }
+            }
+        }
         // not alone with power one
         let others = ["m", "s", "J", "kg"];
         let pairs = [("°C", "K"), ("K", "°C"), ("°F", "K"), ("K", "°F"), ("°C", "°F"), ("°F", "°C"), ("celsius", "kelvin"), ("fahrenheit", "celsius")];
@@ -166,6 +177,26 @@ impl Prop for C09 {
     }
     fn check(&self, env: &mut Env, case: &Case) -> Verdict {
         let q = &case.key;
+        if case.fam == "sum" {
+            let ch = |k: &str| case.data[k].as_str().unwrap().chars().next().unwrap();
+            let (a, b) = (ch("a"), ch("b"));
+            let x = ref_decimal(case.data["x"].as_str().unwrap()).unwrap();
+            let y_in_a = from_k(&to_k(&ref_decimal(case.data["y"].as_str().unwrap()).unwrap(), b), a);
+            let want = if case.data["op"] == "+" { &x + &y_in_a } else { &x - &y_in_a };
+            return match obs::eval_one(env.db(), q) {
+                Ok(Res::Ok { value, unit, unit_text }) => {
+                    if unit.len() != 1 || unit[0].1 != 1 || unit[0].2 != 0 || scale_of_key(&unit[0].0) != Some(a) {
+                        return fw::fail(format!("sum:{a}{b}:unit"), format!("{q}: result is not on the left operand's scale: [{unit_text}]"));
+                    }
+                    if value != want {
+                        return fw::fail(format!("sum:{a}{b}:value"), format!("{q}: the right operand is {y_in_a} on the left scale, so the result must be {want}; got {value}"));
+                    }
+                    fw::pass(a != b, fw::hash_str(&want.to_string()))
+                }
+                Ok(Res::Err { msg, .. }) => fw::fail(format!("sum:{a}{b}:refused"), format!("{q}: refused: {msg}")),
+                Err(why) => fw::fail("results:sum", format!("{q}: {why}")),
+            };
+        }
         if case.fam == "multi-res" || case.fam == "multi-sub" {
             let ch = |k: &str| case.data[k].as_str().unwrap().chars().next().unwrap();
             let (a, b) = (ch("a"), ch("b"));
